@@ -159,6 +159,9 @@ class History:
                     victims = self.rng.sample(files, k)
                     if len(op) > 2 and op[2] == "nolead":
                         victims = [v.lstrip("/") for v in victims]
+                    elif len(op) > 2 and op[2] == "flip":
+                        # the other spelling of the same table-relative path
+                        victims = [v.lstrip("/") if v.startswith("/") else "/" + v for v in victims]
                     out["victims"] = [reader.norm(v) for v in victims]
                     with t.new_transaction() as tx:
                         tx.delete_files(victims)
@@ -255,6 +258,30 @@ class History:
                     tx, ids = self.open_txs.pop(0)
                     out["rolled_back_ids"] = ids
                     tx.rollback()
+            elif kind == "prebuilt":
+                # append_files() of a parquet file built outside the library, its path spelled in one of several ways
+                import pyarrow as pa
+                import pyarrow.parquet as pq
+                from datashard.data_structures import DataFile, FileFormat
+
+                ids = self.fresh_ids(op[2])
+                out["ids"] = ids
+                name = f"pb_{ids[0]}.parquet"
+                tbl = pa.Table.from_pylist(tables.rows(ids), schema=pa.schema(
+                    [pa.field("id", pa.int64(), nullable=False), pa.field("v", pa.string())]))
+                import io as _io
+                buf = _io.BytesIO()
+                pq.write_table(tbl, buf)
+                t.storage.write_file(f"data/{name}", buf.getvalue())
+                spelled = {"lead": f"/data/{name}", "nolead": f"data/{name}", "double": f"/data//{name}",
+                           "dot": f"/data/./{name}", "updown": f"data/sub/../{name}"}[op[1]]
+                if op[1] == "updown":
+                    t.storage.makedirs("data/sub")
+                out["spelled"] = spelled
+                with t.new_transaction() as tx:
+                    tx.append_files([DataFile(file_path=spelled, file_format=FileFormat.PARQUET, partition_values={},
+                                              record_count=len(ids), file_size_in_bytes=len(buf.getvalue()))])
+                    tx.commit()
             elif kind == "readd":
                 # re-append (append_files) a data file that an OLDER retained snapshot still references but
                 # the current one does not; mode: ok | fail (pointer write fails) | abandon (exception in the block)
@@ -337,7 +364,7 @@ def gen_ops(rng: random.Random, n: int, alphabet: List[str]) -> List[Tuple[Any, 
         elif k == "multi":
             ops.append(("multi", [rng.randint(1, 2) for _ in range(rng.randint(2, 3))]))
         elif k == "delete":
-            ops.append(("delete", rng.randint(1, 2), rng.choice(["lead", "nolead"])))
+            ops.append(("delete", rng.randint(1, 2), rng.choice(["lead", "nolead", "flip"])))
         elif k == "delete_append":
             ops.append(("delete_append", rng.randint(1, 2)))
         elif k == "expire":
@@ -367,6 +394,8 @@ def gen_ops(rng: random.Random, n: int, alphabet: List[str]) -> List[Tuple[Any, 
             ops.append(("rollback_tx",))
         elif k == "readd":
             ops.append(("readd", rng.choice(["ok", "fail", "abandon"])))
+        elif k == "prebuilt":
+            ops.append(("prebuilt", rng.choice(["lead", "nolead", "double", "dot", "updown"]), rng.randint(1, 2)))
         elif k == "reopen":
             ops.append(("reopen",))
         else:
